@@ -107,14 +107,10 @@ theorem C06_mustcache_or_error (c : PredCtx) (hm : c.mustCache = true) :
 theorem C06_static_complete_cacheable (c : PredCtx)
     (h1 : c.kindFunc = true) (h2 : c.cacheable = true) (h3 : c.inputsAreStatic = true) (h4 : c.notCacheable = false)
     (h5 : c.isLast = false) (h6 : c.noAnonymousFuncs = true) (h7 : c.hasOutputs = true ∨ c.returnsTerminalError = true)
-    (h8 : c.memoize = false) (h9 : c.singleton = false) (h10 : c.isFuncPointer = false) (h11 : c.reorder = false ∨ c.returnsTerminalError = false) :
+    (h8 : c.memoize = false) (h9 : c.singleton = false) (h10 : c.isFuncPointer = false) (hr : c.reorder = false) :
     ∃ e, classify c = some e ∧ e.group = .staticGroup := by
   cases hte : c.returnsTerminalError with
   | true =>
-    have hr : c.reorder = false := by
-      cases h11 with
-      | inl h => exact h
-      | inr h => rw [hte] at h; cases h
     refine ⟨handlerRegistry[5]'(by decide), ?_, ?_⟩
     · simp [classify, classifyWith, handlerRegistry, List.find?, fires, Pred.holds, h1, h2, h3, h4, h5, h6, h8, h9, h10, hte, hr]
     · decide
@@ -124,12 +120,12 @@ theorem C06_static_complete_cacheable (c : PredCtx)
       | inl h => exact h
       | inr h => rw [hte] at h; cases h
     refine ⟨handlerRegistry[8]'(by decide), ?_, ?_⟩
-    · simp [classify, classifyWith, handlerRegistry, List.find?, fires, Pred.holds, h1, h2, h3, h4, h5, h6, h8, h9, h10, hte, ho]
+    · simp [classify, classifyWith, handlerRegistry, List.find?, fires, Pred.holds, h1, h2, h3, h4, h5, h6, h8, h9, h10, hte, ho, hr]
     · decide
 
 /-- non-vacuity: a Cacheable `func() T` in the middle of the list -/
 example : ∃ e, classify { cacheable := true } = some e ∧ e.group = .staticGroup :=
-  C06_static_complete_cacheable _ rfl rfl rfl rfl rfl rfl (Or.inl rfl) rfl rfl rfl (Or.inl rfl)
+  C06_static_complete_cacheable _ rfl rfl rfl rfl rfl rfl (Or.inl rfl) rfl rfl rfl rfl
 
 end Nject
 
